@@ -186,6 +186,8 @@ def build_pool(ed_name, variations):
     add("short-2", f"Bar, 5 {ed_name} at 10 (x).", f"5 {ed_name} at 10", M.ShortCaseCitation, ("short", ed_name, "5", "10"), "short")
     add("placeholder-1", f"5 {ed_name} ___", f"5 {ed_name} ___", M.FullCaseCitation, None, "full")
     add("placeholder-2", f"5 {ed_name} ___", f"5 {ed_name} ___", M.FullCaseCitation, None, "full")
+    add("placeholder-1u", f"5 {ed_name} _", f"5 {ed_name} _", M.FullCaseCitation, None, "full")
+    add("placeholder-2u", f"5 {ed_name} _", f"5 {ed_name} _", M.FullCaseCitation, None, "full")
     add("law-1", "Mass. Gen. Laws ch. 1, § 2", "Mass. Gen. Laws ch. 1, § 2", M.FullLawCitation, ("law", 1), "law")
     add("law-2", "See Mass. Gen. Laws ch. 1, § 2 (West 1999).", "Mass. Gen. Laws ch. 1, § 2", M.FullLawCitation, ("law", 1), "law")
     add("journal-1", "5 Minn. L. Rev. 10", "5 Minn. L. Rev. 10", M.FullJournalCitation, ("journal", 1), "journal")
